@@ -211,6 +211,9 @@ func (e *Effects) step(fn *ssa.Function, s *fnState, sum *Summary, ins ssa.Instr
 				vr = s.roots[x.Val]
 			}
 			loc, ct := locOf(x.Addr)
+			if isRefType(x.Val.Type()) {
+				s.storeRegion(s.roots[x.Addr], loc, s.roots[x.Val], s.cells[x.Val])
+			}
 			e.vtypes[typeStr(x.Val.Type())] = x.Val.Type()
 			e.emit(fn, s, s.roots[x.Addr], loc, ct, x.Pos(), where, "", vr, typeStr(x.Val.Type()))
 		}
@@ -221,6 +224,7 @@ func (e *Effects) step(fn *ssa.Function, s *fnState, sum *Summary, ins ssa.Instr
 		s.storeCells(x.Map, s.roots[x.Key], s.cells[x.Key], x.Key.Type())
 		s.storeCells(x.Map, s.roots[x.Value], s.cells[x.Value], x.Value.Type())
 		if len(s.roots[x.Map]) > 0 {
+			s.storeRegion(s.roots[x.Map], "map("+ownerOf(x.Map)+")", all, nil)
 			e.emit(fn, s, s.roots[x.Map], "map("+ownerOf(x.Map)+")", typeStr(x.Map.Type()), x.Pos(), where, "", all)
 		}
 	case *ssa.Send:
